@@ -82,15 +82,15 @@ inductive IterEnd | eof | err
 The directory iterator driven like tar2sqfs drives it: `next`, read the file stream of every regular file
 to its end, `next`, …  `skip` = `record_size` + `padding` still to be skipped before the next header.
 -/
-def iterLoop : Nat → Bytes → Nat → List IterEntry → List IterEntry × IterEnd
+def iterLoop (repaired : Bool) : Nat → Bytes → Nat → List IterEntry → List IterEntry × IterEnd
   | 0, _, _, acc => (acc, .err)
   | f + 1, s, skip, acc =>
-    match readHeader (s.drop skip) with
+    match (if repaired then readHeader (s.drop skip) else readHeaderCur (s.drop skip)) with
     | .eof => (acc, .eof)
     | .err => (acc, .err)
     | .ok d s' =>
       let pad := padding d.recordSize
-      if d.unknown then iterLoop f s' (d.recordSize + pad) acc                  -- `goto retry`
+      if d.unknown then iterLoop repaired f s' (d.recordSize + pad) acc                  -- `goto retry`
       else
         match Sqfs.Path.canonicalize (d.name.getD []) with
         | none => (acc, .err)                                                    -- `SQFS_ERROR_CORRUPTED`
@@ -104,10 +104,13 @@ def iterLoop : Nat → Bytes → Nat → List IterEntry → List IterEntry × It
             let e : IterEntry := ⟨nm, mode, d.hardLink, d.uid, d.gid, d.mtime, size, link, some r⟩
             match r.ending with
             | .corrupted => (acc ++ [e], .err)                                   -- iterator state poisoned by `drop_parent`
-            | .eof => iterLoop f r.stream (r.recordSize + pad) (acc ++ [e])
+            | .eof => iterLoop repaired f r.stream (r.recordSize + pad) (acc ++ [e])
           else
-            iterLoop f s' (d.recordSize + pad) (acc ++ [⟨nm, mode, d.hardLink, d.uid, d.gid, d.mtime, size, link, none⟩])
+            iterLoop repaired f s' (d.recordSize + pad) (acc ++ [⟨nm, mode, d.hardLink, d.uid, d.gid, d.mtime, size, link, none⟩])
 
-def iterate (s : Bytes) : List IterEntry × IterEnd := iterLoop (s.length / 512 + 2) s 0 []
+def iterate (s : Bytes) : List IterEntry × IterEnd := iterLoop true (s.length / 512 + 2) s 0 []
+
+/-- the iterator over the unrepaired `read_header` (D22: `record_size` wraps, the rest of the archive is skipped) -/
+def iterateCur (s : Bytes) : List IterEntry × IterEnd := iterLoop false (s.length / 512 + 2) s 0 []
 
 end Sqfs.Tar
